@@ -111,6 +111,11 @@ def checkV200 (l : Local) (st : Status) : Except Reject Unit :=
         else if decodeRole s.role == roleAgent && !checkAgent s st.certs then .error .cert
         else .ok ()
 
+/-- did the check accept? -/
+def accepted : Except Reject Unit → Bool
+  | .ok _ => true
+  | .error _ => false
+
 /-- `(*V033Handshaker).checkRemoteStatus` -/
 def checkV033 (l : Local) (st : Status) : Except Reject Unit :=
   match parseChainID st.chainID with
@@ -124,5 +129,94 @@ def checkV033 (l : Local) (st : Status) : Except Reject Unit :=
         else if s.peerID != l.peerID then .error .peerID
         else if l.genesis != st.genesis then .error .genesis
         else .ok ()
+
+/-! ### The legacy protocol versions and the wire handshake around the status check
+
+`p2p/versionmanager.go GetVersionedHandshaker`: 0.3.2 and 0.3.1 get the *fixed* chain id
+`vm.localChainID` (the identifier written in the genesis block) instead of the version manager, and
+0.3.1 gets no genesis hash. `p2p/handshakev2.go`: version negotiation in front of them. -/
+
+/-- `(*V030Handshaker).checkRemoteStatus` (protocol 0.3.1, `p2p/v030/v030handshake.go`): the chain id
+is compared with the fixed identifier handed to the constructor; **no** genesis comparison. -/
+def checkV030 (fixed : ChainID) (l : Local) (st : Status) : Except Reject Unit :=
+  match parseChainID st.chainID with
+  | none => .error .wrongStatus
+  | some rc =>
+    if fixed != rc then .error .diffChain
+    else match st.sender with
+      | none => .error .badAddr
+      | some s =>
+        if !s.addrOK then .error .badAddr
+        else if s.peerID != l.peerID then .error .peerID
+        else .ok ()
+
+/-- `(*V032Handshaker).checkRemoteStatus` (protocol 0.3.2): 0.3.1 plus the genesis comparison. -/
+def checkV032 (fixed : ChainID) (l : Local) (st : Status) : Except Reject Unit :=
+  match checkV030 fixed l st with
+  | .error e => .error e
+  | .ok _ => if l.genesis != st.genesis then .error .genesis else .ok ()
+
+/-- the four protocol versions `GetVersionedHandshaker` knows -/
+inductive Ver | v200 | v033 | v032 | v031
+deriving Repr, DecidableEq
+
+/-- `p2pcommon.P2PVersion` values -/
+def Ver.code : Ver → Nat
+  | .v200 => 0x00020000 | .v033 => 0x00000303 | .v032 => 0x00000302 | .v031 => 0x00000301
+
+def verOfCode (c : Nat) : Option Ver :=
+  if c = 0x00020000 then some .v200 else if c = 0x00000303 then some .v033
+  else if c = 0x00000302 then some .v032 else if c = 0x00000301 then some .v031 else none
+
+/-- `defaultVersionManager.FindBestP2PVersion`: the first entry of the node's own list that the peer
+offers. -/
+def findBest (accepted offered : List Nat) : Option Nat :=
+  accepted.find? (fun a => offered.contains a)
+
+/-- the node's side of a handshake -/
+structure WireLocal where
+  accepted : List Nat   -- `p2pcommon.AcceptedInboundVersions`
+  made : List Ver       -- versions for which `GetVersionedHandshaker` returns a handshaker
+  fixed : ChainID       -- `vm.localChainID` (genesis block's chain id)
+  l : Local
+
+/-- what the peer sends after the version exchange: a status message, or anything else (go-away,
+another sub-protocol, an undecodable body, a truncated or oversized frame) -/
+structure PeerMsg where
+  isStatus : Bool
+  legacyAddrOK : Bool   -- `types.ToMultiAddr(sender.Address, sender.Port)` usable (0.3.x readers need it)
+  st : Status
+
+/-- `receiveRemoteStatus` + `checkRemoteStatus` of the versioned handshaker (`DoForInbound` /
+`DoForOutbound` act on nothing else). The 0.3.x reader (`V030Handshaker.receiveRemoteStatus`, shared
+by 0.3.1–0.3.3) refuses a status without sender or with an unusable address. -/
+def versioned (w : WireLocal) (v : Ver) (m : PeerMsg) : Bool :=
+  if !m.isStatus then false else
+  match v with
+  | .v200 => accepted (checkV200 w.l m.st)
+  | .v033 => m.st.sender.isSome && m.legacyAddrOK && accepted (checkV033 w.l m.st)
+  | .v032 => m.st.sender.isSome && m.legacyAddrOK && accepted (checkV032 w.fixed w.l m.st)
+  | .v031 => m.st.sender.isSome && m.legacyAddrOK && accepted (checkV030 w.fixed w.l m.st)
+
+/-- `handshakev2.go`: `HSMaxVersionCnt` -/
+def maxVersionCnt : Nat := 16
+
+/-- `InboundWireHandshaker.handleInboundPeer`: (negotiated version code or 0, success). -/
+def wireInbound (w : WireLocal) (magicOK : Bool) (offered : List Nat) (m : PeerMsg) : Nat × Bool :=
+  if offered.length = 0 || offered.length > maxVersionCnt || !magicOK then (0, false) else
+  match findBest w.accepted offered with
+  | none => (0, false)
+  | some c =>
+    match verOfCode c with
+    | none => (c, false)
+    | some v => if w.made.contains v then (c, versioned w v m) else (c, false)
+
+/-- `OutboundWireHandshaker.handleOutboundPeer`: the version is whatever the remote answers (it is not
+compared with what was offered). -/
+def wireOutbound (w : WireLocal) (magicOK : Bool) (answered : Nat) (m : PeerMsg) : Nat × Bool :=
+  if !magicOK then (0, false) else
+  match verOfCode answered with
+  | none => (answered, false)
+  | some v => if w.made.contains v then (answered, versioned w v m) else (answered, false)
 
 end Aergo.Handshake
